@@ -520,3 +520,31 @@ def narrowing_conversions(P, fn):
                 if t in WIDE_INT:
                     out.append((ln, x[1], x[2]))
     return out
+
+
+def format_sources(fn):
+    """-> predicate(expr): the expression used as a format is a string literal, one of fn's own parameters, or a local that only ever
+    receives literals, parameters, NULL or fresh storage (a copied specification) — never a value obtained from an object"""
+    # fresh storage counts only in a function that was itself handed a format (print_to_with / scan_from_with copy one specification of it)
+    has_fmt_param = any('char' in str(pt) and '*' in str(pt) for (_pn, pt) in fn['params'])
+    ALLOC = ('malloc', 'calloc', 'realloc', 'alloca') if has_fmt_param else ()
+
+    def clean(v):
+        t = ir.top_nocast(v)
+        return t[0] in ('str', 'param', 'int', 'initlist', 'zero') or (t[0] == 'call' and ir.callee_name(t) in ALLOC)
+    good = {}
+    for s_ in ir.stmts(fn['body']):
+        if s_['k'] == 'decl':
+            for d in s_['decls']:
+                good[d['id']] = d.get('init') is None or clean(d['init'])
+    for e_, _l in ir.all_exprs(fn['body']):
+        for x in ir.walk(e_):
+            if x[0] == 'assign' and x[1] == '=' and ir.top_nocast(x[2])[0] == 'local' and len(ir.top_nocast(x[2])) > 2:
+                lid = ir.top_nocast(x[2])[2]
+                if lid in good and not clean(x[3]):
+                    good[lid] = False
+
+    def ok(a):
+        a = ir.top_nocast(a)
+        return a[0] in ('str', 'param') or (a[0] == 'local' and len(a) > 2 and good.get(a[2], False))
+    return ok
